@@ -340,9 +340,11 @@ class QueryCreator(BaseQueryCreator):
                     elif i[0] == "value":
                         values = i[1]
                         if values:
-                            self.query += "?p odml:hasValue ?v .\n?v rdf:type rdf:Bag .\n"
-                            for val in values:
-                                self.query += "?v rdf:li \"{}\" .\n".format(val)
+                            # Values are exported as an rdf:Seq with numbered members.
+                            self.query += "?p odml:hasValue ?v .\n?v rdf:type rdf:Seq .\n"
+                            for idx, val in enumerate(values):
+                                self.query += "?v ?v_li{0} ?v_val{0} .\n".format(idx)
+                                self.query += "FILTER (str(?v_val{0}) = \"{1}\") .\n".format(idx, val)
                     else:
                         attr = Property.rdf_map(i[0])
                         if i[0] == "id":
